@@ -301,8 +301,11 @@ def seed_crypt() -> Tuple[Doc, Dict[str, Any]]:
 
 
 class _SelfOffset:
+    def __init__(self, delta=0):
+        self.delta = delta
+
     def __repr__(self):
-        return "SELF_OFFSET"
+        return "SELF_OFFSET%+d" % self.delta if self.delta else "SELF_OFFSET"
 
 
 def seed_filters() -> Tuple[Doc, Dict[str, Any]]:
@@ -335,6 +338,7 @@ def seed_filters() -> Tuple[Doc, Dict[str, Any]]:
 
 
 SELF_OFFSET = _SelfOffset()  # trailer value meaning "the offset of this very cross-reference section"
+SELF_OFFSET_WS = _SelfOffset(-1)  # ... one byte early, on the end-of-line in front of the xref keyword (the section still parses)
 
 
 def write_incr(d: Doc, kw: Dict[str, Any]) -> bytes:
@@ -357,7 +361,7 @@ def write_incr(d: Doc, kw: Dict[str, Any]) -> bytes:
     if kw.get("info"):
         tr["Info"] = kw["info"]
     tr.update(kw.get("trailer_extra") or {})
-    tr = {k: (xoff if v is SELF_OFFSET else v) for k, v in tr.items() if v is not DROP}
+    tr = {k: (xoff + v.delta if isinstance(v, _SelfOffset) else v) for k, v in tr.items() if v is not DROP}
     return b + body + xref_table(offs, free0=False) + b"trailer\n" + ser(tr) + b"\nstartxref\n%d\n%%%%EOF\n" % xoff
 
 
